@@ -217,10 +217,26 @@ def check_expired(ck):
                 ok = True
             if isinstance(recv, ast.Subscript) and isinstance(recv.value, ast.Subscript) and q.dotted(recv.value.value) == cont and q.is_const(recv.value.slice, 0) and cont == PUT and q.is_const(recv.slice, _putter_layout(ck)["future"]):
                 ok = True
+        wrong_slot = False
+        for text, pol in facts[nd.id]:
+            if pol and text.endswith(".done()") and cont == PUT:
+                e_ = ast.parse(text, mode="eval").body.func.value
+                if isinstance(e_, ast.Subscript) and isinstance(e_.value, ast.Subscript) and q.dotted(e_.value.value) == cont and q.is_const(e_.value.slice, 0) and isinstance(e_.slice, ast.Constant) and e_.slice.value != _putter_layout(ck)["future"]:
+                    wrong_slot = True
+        if wrong_slot:
+            ck.ob("C35.layout", ce, c, False, "_consume_expired tests done() on the future slot of a putter entry (layout written by put: future at %d)" % _putter_layout(ck)["future"])
+            continue
         if not ok and any(pol and text.endswith(".done()") for text, pol in facts[nd.id]):
             raise AnalysisError("%s: the removal is guarded by a done() test on something that is not recognised as the head entry's future" % ce.site(c))
         ck.ob("C35.expired", ce, c, ok and holds(facts[nd.id], cont, True), "only a head entry whose future is done() is discarded")
     ck.ob("C35.expired", ce, ce.node, seen == {GET, PUT}, "_consume_expired purges both waiter queues", construct="purged=%s" % sorted(seen))
+    # the purge is unconditional: the head test of each queue is evaluated on every call (cancelled waiters must be purged
+    # whether or not a timeout was ever used)
+    for cont in sorted(seen):
+        heads = [nd for nd in ce.cfg.stmt_nodes(lambda nd: nd.kind == "test") if q.dotted(nd.ast) == cont]
+        if not heads:
+            raise AnalysisError("%s: cannot find the emptiness test of %s" % (ce.site(), cont))
+        ck.ob("C35.expired", ce, heads[0].ast, any(ce.cfg.postdominates(h, ce.cfg.entry) for h in heads), "every call of _consume_expired inspects the head of %s (no early exit that skips the purge)" % cont, construct="purge of %s unconditional" % cont)
     ck.ob("C35.expired", ce, ce.node, not own_settle_sites(ce) and not any(method_call_on(c, "self", "_put", "_get") or "put_internal" in (q.call_attr(c) or "") for c in q.calls(ce.node)), "_consume_expired neither settles futures nor moves items", construct="consume side effects")
 
 
@@ -730,6 +746,7 @@ def _get_before_put(root):
 
 
 MUTANTS = [
+    ("_consume_expired skips the purge while no timed waiter was registered (seeded C35-adv4)", _in("Queue._consume_expired", lambda root: (root.body.insert(0, parse_stmt("if not getattr(self, '_timed_waiters', 0):\n    return")) or True)), "C35.expired"),
     ("_consume_expired reads .exception() of purged waiters (seeded C35-adv3)", _in("Queue._consume_expired", replace_stmt(lambda st: isinstance(st, ast.Expr) and "_getters.popleft" in ast.unparse(st), lambda st: [ast.Expr(value=parse_expr("self._getters.popleft().exception()"))])), "C35.cancel-aware"),
     ("get_nowait re-raises the woken putter's outcome (putter.result() unguarded)", _in("Queue.get_nowait", replace_stmt(lambda st: isinstance(st, ast.Expr) and "future_set_result_unless_cancelled" in ast.unparse(st), lambda st: [st, parse_stmt("putter.result()")])), "C35.cancel-aware"),
     ("_consume_expired removes only one expired waiter per queue (while -> if)", _in("Queue._consume_expired", lambda root: _while_to_if(root)), "C35.expired"),
